@@ -1453,3 +1453,26 @@ func slotMemoRule(c *Ctx, p *Prog, R string, floorCtl bool, rels ...string) {
 		c.Check(bad >= 1, R, "control:one-slot cache with an untested input", "checker/testdata/lookbehind/lb.go", fmt.Sprintf("the matcher reports the planted cache (%d)", bad), "the planted one-slot cache with an untested input is not reported: the matcher is broken")
 	}
 }
+
+// c11WrapperCallsFirst (C11/R11): benchstat.UTest has no verdict of its own: no return is reachable from its entry
+// without passing the call of MannWhitneyUTest.
+func c11WrapperCallsFirst(c *Ctx, p *Prog) {
+	const R = "C11/R11"
+	fn := p.Fn("benchstat", "UTest")
+	if fn == nil {
+		c.Undecided(R, "anchor:benchstat.UTest", "", "not found")
+		return
+	}
+	calls := blocksWhere(fn, func(in ssa.Instruction) bool {
+		_, ok := callIs(in, rp("internal/stats"), "", "MannWhitneyUTest")
+		return ok
+	})
+	bad := ""
+	for b := range reachFrom(fn.Blocks[0], calls) {
+		if ret, ok := b.Instrs[len(b.Instrs)-1].(*ssa.Return); ok {
+			bad = p.pos(ret.Pos())
+		}
+	}
+	c.Check(len(calls) > 0 && bad == "", R, "UTest:the test decides", p.pos(fn.Pos()), "every return follows the call of MannWhitneyUTest",
+		"benchstat.UTest returns (at "+bad+") without having called MannWhitneyUTest: the U test is defined for a single value against several (n=1+19 has the exact p 0.100), a size check of the wrapper's own reports \"too few samples\" instead")
+}
